@@ -71,6 +71,8 @@ let dispatch (fn : string) : jv -> jv = match fn with
   | "replay_conc" -> replay_conc_j
   | "send_to_kdc" -> send_to_kdc_j
   | "verify_apreq" -> verify_apreq_j
+  | "spnego_serve" -> serve_j
+  | "spnego_accept" -> accept_sec_context_j
   | "send_to_kdc_visible" -> send_to_kdc_visible_j
   | _ -> failwith ("unknown model function " ^ fn)
 
